@@ -6,6 +6,8 @@ func execExtraOp(ts []string) (string, bool) {
 		return execRegs(ts), true
 	case "split":
 		return execSplit(ts), true
+	case "extract":
+		return execExtract(ts), true
 	}
 	return "", false
 }
